@@ -78,6 +78,11 @@ def annotation_targets():
                    ('@NoInject(%s);', None), ('@With(%s);', None), ('@NoWith(%s);', None)):
     for target in ('P', 'Missing'):
       v.append((base + ann % target + '\n', 'Q', target == 'Missing'))
+  # @OrderBy / @Limit / @NoInject take positional arguments only
+  for ann in ('@OrderBy(P, "col0", desc: true);', '@Limit(P, 2, offset: 1);', '@OrderBy(P, column: "col0");',
+              '@NoInject(P, always: true);'):
+    v.append((base + ann + '\n', 'Q', True))
+  v.append((base + '@OrderBy(P, "col0", "col1 desc");\n@Limit(P, 2);\n', 'Q', False))
   # the annotated name exists in ANOTHER program of this catalogue (compiled earlier in the same
   # process by the harness warm-up): the check must not remember it
   v.append((E + 'Ranked(x, y) :- T(x, y);\nTop(x) :- Ranked(x, y);\n@OrderBy(Ranked, "col0");\n', 'Top', False))
